@@ -66,9 +66,14 @@ def case(args):
     cls, n, enc, ser, framing, seed = args
     rnd = random.Random(f"{seed}-{cls}-{n}")
     data = data_of(cls, n, rnd)
-    stream = R.deflate_raw(data) if framing == "raw" else zlib.compress(data)
+    if framing == "raw78":
+        stream = raw78(R.deflate_raw(data[156:]), data[:156]) if n >= 156 else R.deflate_raw(data)
+    else:
+        stream = R.deflate_raw(data) if framing == "raw" else zlib.compress(data)
     tok, jwk = forge(stream, enc, ser)
     (res, val), _ = decrypt(tok, jwk, enc, ser)
+    if framing == "raw78" and n >= 156 and res == "error:DecodeError":
+        return args, None           # a raw stream that starts like the zlib header may be taken for a (broken) zlib stream: refusing it is allowed
     if n <= CAP:
         ok = res == "plaintext" and val == data
         what = None if ok else (f"within-limit-{res}" if res != "plaintext" else "within-limit-wrong-content")
@@ -129,15 +134,24 @@ def bomb_stream(total: int, pattern: bytes) -> bytes:
     return bytes(out)
 
 
+def raw78(rest: bytes, first: bytes = b"") -> bytes:
+    """a raw DEFLATE stream whose first two octets equal the default zlib header 78 9c: a non-final stored block (the five
+    padding bits of its header octet are set, which RFC 1951 says are ignored) of 156 octets, followed by `rest`"""
+    block = (first + b"s" * 156)[:156]
+    return b"\x78\x9c\x00\x63\xff" + block + rest
+
+
 def bomb(args):
-    total, pattern, enc, ser = args
+    total, pattern, enc, ser = args[:4]
     stream = bomb_stream(total, pattern)
+    if len(args) > 4 and args[4] == "raw78":
+        stream = raw78(stream)
     tok, jwk = forge(stream, enc, ser)
     size = len(tok) if isinstance(tok, str) else len(json.dumps(tok))
     (res, val), peak = decrypt(tok, jwk, enc, ser, measure=True)
     bound = 4 * 1024 * 1024 + 8 * size
     what = None
-    if res != "exceeded":
+    if res != "exceeded" and not (len(args) > 4 and res == "error:DecodeError"):      # (ambiguous framing may be refused as a broken zlib stream)
         what = f"bomb-{res}"
     elif peak > bound:
         what = f"bomb-peak-memory-{peak >> 20}MiB"
@@ -188,6 +202,9 @@ def run(ctx: Ctx) -> None:
                         if framing == "zlib" and not (thorough or i % 2):
                             continue
                         cases.add((cls, n, enc, ser, framing, ctx.seed))
+    for n in (1000, CAP - 1, CAP, CAP + 1, CAP + 300, 2 * CAP):      # raw streams whose first octets equal the zlib header (sniffing ambiguity)
+        for cls in classes:
+            cases.add((cls, n, encs[n % len(encs)], ("compact", "flattened", "general")[n % 3], "raw78", ctx.seed))
     for n in fixed:                         # the boundary lengths for every class, raw framing, all three serializations
         for cls in classes:
             for j, ser in enumerate(("compact", "flattened", "general")):
@@ -201,7 +218,8 @@ def run(ctx: Ctx) -> None:
         _pool_init(); J.register_drafts({"chacha"})
     with mp.get_context("fork").Pool(NCPU, initializer=init) as pool:
         res = pool.map(case, cases, chunksize=4)
-        bombs = [(64 << 20, b"\x00", "A256GCM", "compact"), (64 << 20, b"abcdefgh", "A128CBC-HS256", "flattened")]
+        bombs = [(64 << 20, b"\x00", "A256GCM", "compact"), (64 << 20, b"abcdefgh", "A128CBC-HS256", "flattened"),
+                 (64 << 20, b"\x00", "A128GCM", "compact", "raw78"), (64 << 20, b"abcdefgh", "A256GCM", "general", "raw78")]
         if thorough:
             bombs += [(512 << 20, b"\x00", e, s) for e in ("A128GCM", "A256CBC-HS512", "C20P") for s in ("compact", "general")]
         bres = pool.map(bomb, bombs, chunksize=1)
